@@ -182,7 +182,7 @@ Proof. exact gstep_tstep. Qed.
 Print Assumptions C19_model_uses_thread_automaton.
 (* a recorded trace accepted by the conformance check is a run of tstep from PIdle to PIdle with latent (plain /
    abstract) steps interleaved *)
-Theorem C19_conformance_automaton_sound : forall self tr, conform self tr = (-1, 1) ->
+Theorem C19_conformance_automaton_sound : forall self pf tr, conform self pf tr = (-1, 1) ->
   exists p l, vpath self PIdle tr p /\ lat_path self p l PIdle.
 Proof. exact conform_sound. Qed.
 Print Assumptions C19_conformance_automaton_sound.
@@ -239,11 +239,14 @@ Example C19_nonvacuous :
   | Some s => bodies s = 1 /\ fin s = 1 /\ leaves s = 1 /\ flags s = 1 /\ thread s = 5 /\ pcs s 5 = PIdle
   | None => False end /\
   (* the recorded (visible) part of worker 11's trace is accepted by the conformance automaton *)
-  conform 11 [B DV_ADD MO_RELAXED OFF_PERF 4 0 1 1; Gp DV_ADD MO_RELEASE 0 8 4294967295 4;
+  conform 11 false [B DV_ADD MO_RELAXED OFF_PERF 4 0 1 1; Gp DV_ADD MO_RELEASE 0 8 4294967295 4;
               Gp DV_CAS MO_RELAXED 0 8 4294967299 4294967296; B DV_XCHG MO_RELAXED OFF_QUEUE 8 0 0 1] = (-1, 1) /\
   (* ... and a store to the flags word (seeded defect C19-1) is not *)
-  fst (conform 9 [U DVU_CALL OP_WAIT 5; B DV_OR MO_RELAXED OFF_FLAGS 4 0 2 1; B DV_XCHG MO_RELAXED OFF_QUEUE 8 0 0 1;
-                  B DV_LOAD MO_RELAXED OFF_PERF 4 0 0 1; B DV_STORE MO_RELAXED OFF_FLAGS 4 0 0 1]) = 4.
+  fst (conform 9 false [U DVU_CALL OP_WAIT 5; B DV_OR MO_RELAXED OFF_FLAGS 4 0 2 1; B DV_XCHG MO_RELAXED OFF_QUEUE 8 0 0 1;
+                  B DV_LOAD MO_RELAXED OFF_PERF 4 0 0 1; B DV_STORE MO_RELAXED OFF_FLAGS 4 0 0 1]) = 4 /\
+  (* ... nor an invocation that gives the boost queue back without having completed (cancelled, not DBF_PERFORM) *)
+  fst (conform 11 false [B DV_XCHG MO_RELAXED OFF_QUEUE 8 0 0 1]) = 0 /\
+  conform 11 true [U DVU_CALL OP_DIRECT 1; U DVU_CALLOUT_BEGIN 0 0; U DVU_CALLOUT_END 0 0; U DVU_RET 0 0] = (-1, 1).
 Proof.
   vm_compute. repeat split; intros t H; repeat (destruct H as [<-|H]; [reflexivity|]); destruct H.
 Qed.
